@@ -49,10 +49,13 @@ def shapes(tier, seed):
         # a client-declared payload hash (x-amz-content-sha256, S3 style) next to a symbolic body: the hash that counts is that of the body received
         out.append(('accept', carrier, 0, 0, 'sha', 2, True, False, False))
         out.append(('accept', carrier, 0, 0, 'sha-unsigned', 1, False, False, False))
+        # extension methods / unusual letter case: the method signed is the method received, byte for byte
+        out.append(('accept', carrier, 0, 0, 'm:get', 0, False, False, False))
+        out.append(('accept', carrier, 0, 0, 'm:Purge', 1, False, False, False))
         if not q:
             out.append(('accept', carrier, 3, 0, None, 0, False, False, False))
             out.append(('accept', carrier, 1, 2, 'hdr', 1, True, True, False))
-        for what in ('path', 'query', 'header', 'body', 'key', 'sig', 'method', 'signedlist', 'duppair', 'dupheader'):
+        for what in ('path', 'query', 'header', 'body', 'key', 'sig', 'method', 'methodcase', 'signedlist', 'duppair', 'dupheader'):
             out.append(('mutate', carrier, what))
     return out
 
@@ -131,7 +134,8 @@ def build_accept(m, ctx, shape):
             aq += conc_bytes('&X-Amz-Security-Token=') + tok
         aq += conc_bytes('&X-Amz-Signature=') + sig
         query = (qraw + [Int('u8', 0x26)] if qlen else []) + aq
-    rq = Req('POST' if blen else 'GET', path, query, headers, body, 'bytes')
+    method = extra[2:] if (extra or '').startswith('m:') else ('POST' if blen else 'GET')
+    rq = Req(method, path, query, headers, body, 'bytes')
     return dict(rq=rq, path=path, query=query, headers=[h for h in headers if h[0] != 'authorization'], signed=signed, body=body,
                 sig=sig, tok=tok, s3=s3, fold=fold, form=(extra == 'form'), carrier=carrier)
 
@@ -170,6 +174,8 @@ def run_shape(prog, shape, tier, seed, res):
             signed = ['host', 'x-e'] if not (what == 'signedlist' and x is b) else ['host']
             bodyb = [x] if what == 'body' else conc_bytes('B')
             method = 'GET' if not (what == 'method' and x is b) else 'PUT'
+            if what == 'methodcase' and x is b:
+                method = 'get'
             return path, pairs, wire_q, headers, signed, bodyb, method
         keyA = list(key)
         keyB = list(key)
@@ -361,6 +367,8 @@ def replay_finding(rp, f):
             signed = ['host', 'x-e'] if not (what == 'signedlist' and is_b) else ['host']
             body = (x if what == 'body' else 'B').encode()
             method = 'GET' if not (what == 'method' and is_b) else 'PUT'
+            if what == 'methodcase' and is_b:
+                method = 'get'
             return path, q, headers, signed, body, method
 
         def mk(x, is_b):
